@@ -618,6 +618,29 @@ pub fn codec_parse(a: &Args) {
             }
             _ => {}
         }
+        // the same frame with MHDR RFU bits set (a receiver ignores them; the MIC covers the MHDR octet as sent):
+        // MIC recomputed from the primitives with the direction the MType gives
+        if i % 16 == 9 && b.len() >= 12 {
+            for rfu in [0x04u8, 0x08, 0x10, 0x1c] {
+                let mut f = b.clone();
+                f[0] |= rfu;
+                let n = f.len();
+                let dir = if matches!(f[0] >> 5, 2 | 4) { 0u8 } else { 1u8 };
+                let mut b0 = [0u8; 16];
+                b0[0] = 0x49;
+                b0[5] = dir;
+                b0[6..10].copy_from_slice(&f[1..5]);
+                b0[10..14].copy_from_slice(&d.fcnt.to_le_bytes());
+                b0[15] = (n - 4) as u8;
+                let c = DefaultCrypto::new(&AES128(d.nwk));
+                let mic = lorawan::keys::Crypto::calculate_mic(&c, &b0, &f[..n - 4]);
+                f[n - 4..].copy_from_slice(&mic);
+                if let Some(e) = ev_mic(&f, &d.nwk, d.fcnt) {
+                    out.emit(&e);
+                }
+                out.emit(&ev_decode(&f, &d.nwk, app, d.fcnt));
+            }
+        }
         // forged MICs that a folding comparison (XOR, sum, multiset) would take for the right one
         if i % 16 == 5 && b.len() >= 12 {
             let n = b.len();
